@@ -226,3 +226,65 @@ func Harness_C09_CalendarMalformed() {
 	_ = idx
 	vs.Cover("C09/malformed/accepted")
 }
+
+// vhC09NextDay is the proleptic Gregorian successor of the day y-m-d.
+func vhC09NextDay(y, m, d int) (int, int, int) {
+	dim := []int{31, 28, 31, 30, 31, 30, 31, 31, 30, 31, 30, 31}[m-1]
+	if m == 2 && (y%4 == 0 && y%100 != 0 || y%400 == 0) {
+		dim = 29
+	}
+	if d < dim {
+		return y, m, d + 1
+	}
+	if m < 12 {
+		return y, m + 1, 1
+	}
+	return y + 1, 1, 1
+}
+
+//verif:harness prop=C09 bounds="date_day rules: the sub tables ParseDayRange builds for a span A-B are exactly the days from A to B; A from 14 start days around month ends, leap days and year ends of 2015..2021 (leap and non-leap), span length 0..5 days (every combination), ascending or descending spelling"
+func Harness_C09_DayRangeTables() {
+	starts := [][3]int{{2015, 12, 29}, {2016, 2, 27}, {2016, 12, 28}, {2016, 12, 31}, {2017, 2, 26}, {2017, 12, 30}, {2019, 12, 31}, {2020, 2, 28}, {2020, 12, 27}, {2020, 12, 30}, {2021, 1, 1}, {2018, 6, 28}, {2019, 2, 28}, {2020, 2, 29}}
+	st := starts[vs.Choice("start", len(starts))]
+	n := vs.IntRange("days", 0, 5)
+	y, m, d := st[0], st[1], st[2]
+	var want []int
+	for i := 0; i <= n; i++ {
+		want = append(want, y*10000+m*100+d)
+		y, m, d = vhC09NextDay(y, m, d)
+	}
+	a, b := fmt.Sprint(want[0]), fmt.Sprint(want[len(want)-1])
+	text := a + "-" + b
+	if vs.Choice("descending", 2) == 1 {
+		text = b + "-" + a
+	}
+	if n == 0 && vs.Choice("single", 2) == 1 {
+		text = a
+	}
+	got, err := ParseDayRange(text)
+	vs.Assert(err == nil, "C09/day-range/parsed")
+	if err != nil {
+		return
+	}
+	vs.Assert(len(got) == len(want), "C09/day-range/one-sub-table-per-day-of-the-span")
+	for i := 0; i < len(want) && i < len(got); i++ {
+		vs.Assert(got[i] == want[i], "C09/day-range/one-sub-table-per-day-of-the-span")
+	}
+	// every day of the span is placed in a listed table
+	s := &DateDayShard{}
+	for _, day := range want {
+		key := fmt.Sprintf("%04d-%02d-%02d", day/10000, day/100%100, day%100)
+		idx, ferr := s.FindForKey(key)
+		vs.Assert(ferr == nil && vhC09Has(got, idx), "C09/day-range/every-day-of-the-span-has-its-table")
+	}
+	vs.Cover("C09/day-range/done")
+}
+
+func vhC09Has(l []int, x int) bool {
+	for _, v := range l {
+		if v == x {
+			return true
+		}
+	}
+	return false
+}
